@@ -107,7 +107,7 @@ func mutateAssert(t *rapid.T, c *Case, ac *AssertCase, x int) string {
 	y := otherIndex(t, n, x, "other")
 	Y := &c.Clients[y]
 	off, maxAge := ac.Cfg.OffsetS, ac.Cfg.MaxAgeS
-	dim := rapid.SampledFrom([]string{"impersonate", "exp", "iat", "aud", "key", "sub", "iss", "impersonate", "exp", "iat", "kid", "sig", "aud", "key", "iat", "exp", "impersonate", "alg", "extra", "timeform"}).Draw(t, "dim")
+	dim := rapid.SampledFrom([]string{"impersonate", "exp", "iat", "aud", "key", "sub", "iss", "impersonate", "exp", "iat", "kid", "sig", "aud", "key", "iat", "exp", "impersonate", "alg", "extra", "timeform", "mangle", "mangle", "mangle"}).Draw(t, "dim")
 	switch dim {
 	case "impersonate":
 		// X's key material, but the assertion names Y
@@ -180,6 +180,8 @@ func mutateAssert(t *rapid.T, c *Case, ac *AssertCase, x int) string {
 		a.Tok.Alg = rapid.SampledFrom(algs).Draw(t, "alg")
 	case "sig":
 		a.Tok.Sig = rapid.SampledFrom([]string{"none", "hs-pub", "tampered", "garbage", "empty"}).Draw(t, "sig")
+	case "mangle":
+		a.Tok.Mangle = genMangle(t)
 	case "extra":
 		a.Extra = rapid.SampledFrom([]string{"benign", "hostile"}).Draw(t, "extra")
 	case "timeform":
@@ -250,8 +252,18 @@ func assertionPayload(c Case, a AssertSpec, now time.Time) []byte {
 	return b
 }
 
-// signToken renders the JOSE layer around payload. ok=false: the spec is not realisable (alg does not fit key).
+// signToken renders the JOSE layer around payload and applies the byte-level mangling of the spec, if any.
+// ok=false: the spec is not realisable (alg does not fit key, mangling not applicable).
 func signToken(ts TokenSpec, payload []byte) (string, bool) {
+	tok, ok := signCompact(ts, payload)
+	if !ok || ts.Mangle == "" {
+		return tok, ok
+	}
+	return mangleCompact(tok, ts)
+}
+
+// signCompact renders the well-formed compact serialisation.
+func signCompact(ts TokenSpec, payload []byte) (string, bool) {
 	key := vkit.Key(ts.Key)
 	hdr := map[string]any{"alg": ts.Alg, "typ": "JWT"}
 	if ts.Kid != nil {
@@ -312,6 +324,10 @@ const slowLimit = 400 * time.Millisecond // a case that takes longer asserts not
 func keyRelation(c Case, iss *string, ts TokenSpec) (rel string, held, kidOK bool) {
 	if ts.Sig != "" && ts.Sig != "good" {
 		return "unsigned:" + ts.Sig, false, false
+	}
+	if ts.Mangle != "" && !noise(ts.Mangle) {
+		// not a compact JWS with a signature over header.payload any more: nobody signed this string
+		return "unsigned:mangled-" + mangleClass(ts.Mangle), false, false
 	}
 	if iss == nil {
 		return "no-issuer", false, false
@@ -455,6 +471,10 @@ func modelAssertion(c Case, a AssertSpec, cfg VerifierCfg) verdict {
 	}
 	if a.Exp.Form != "" || a.Iat.Form != "" {
 		soft("timeform")
+	}
+	if noise(a.Tok.Mangle) {
+		// the signed token is in there, wrapped in white space / spelled in the other base64 alphabet
+		soft("mangle-noise")
 	}
 	if a.Extra == "hostile" {
 		// carries an nbf in the future: the statement does not mention nbf, a verifier may honour it
@@ -855,6 +875,9 @@ func judgeAssertion(c Case, res *vkit.Result, use string, a AssertSpec, cfg Veri
 	}
 
 	res.Label("keyrel:" + strings.SplitN(v.rel, ":", 2)[0])
+	if a.Tok.Mangle != "" {
+		res.Label("mangle:"+mangleClass(a.Tok.Mangle), "mangle:"+use+":"+mangleClass(a.Tok.Mangle), "mangled:"+a.Tok.Mangle)
+	}
 	if o.Accepted {
 		res.Label("accepted")
 	} else {
@@ -871,8 +894,8 @@ func judgeAssertion(c Case, res *vkit.Result, use string, a AssertSpec, cfg Veri
 			}
 		}
 		if o.Accepted {
-			res.Fail("C14:sound:"+use+":"+strings.Join(v.reject, "+"), "%s accepted an assertion that violates %v (iss=%q key=%s kid=%s rel=%s): %s",
-				use, v.reject, iss, a.Tok.Key, strOr(a.Tok.Kid), v.rel, o.Info)
+			res.Fail("C14:sound:"+use+":"+strings.Join(v.reject, "+"), "%s accepted an assertion that violates %v (iss=%q key=%s kid=%s rel=%s%s): %s",
+				use, v.reject, iss, a.Tok.Key, strOr(a.Tok.Kid), v.rel, mangleNote(a.Tok), o.Info)
 		}
 	case 1:
 		if len(soft) == 0 {
@@ -911,7 +934,7 @@ func judgeAssertion(c Case, res *vkit.Result, use string, a AssertSpec, cfg Veri
 	}
 	res.NonTrivial = vv != 1 || len(soft) > 0 || same
 	res.Key = fmt.Sprintf("assert|%s|%s|v=%d|r=%v|w=%v|s=%v|rel=%s|kidsame=%v|alg=%s|sig=%s|exp=%d%s|iat=%d%s|cfg=%s/%d/%d/%s|body=%s|extra=%s|primed=%d|acc=%v|kf=%s",
-		use, c.Router, vv, v.reject, v.grey, soft, v.rel, same, a.Tok.Alg, a.Tok.Sig, a.Exp.Rel, a.Exp.Form, a.Iat.Rel, a.Iat.Form,
+		use, c.Router, vv, v.reject, v.grey, soft, v.rel, same, a.Tok.Alg, a.Tok.Sig+"/"+a.Tok.Mangle, a.Exp.Rel, a.Exp.Form, a.Iat.Rel, a.Iat.Form,
 		cfg.Issuer, cfg.MaxAgeS, cfg.OffsetS, cfg.SubjectCheck, bodyID, a.Extra, primers, o.Accepted, keyFault)
 }
 
